@@ -905,6 +905,19 @@ SCENARIOS = [
     Scenario("evd-trace-second", "R20c", "delta evaluation requested, trace over second positions next to a remainder", "U:kj U:lj X:im Y:m", target="i", ed=True),
     Scenario("evd-repeat", "R20c", "delta evaluation requested, the same delta generated twice (Einstein targets)", "U:ij U:ik U:lj U:lk", ed=True),
     Scenario("evd-provided-none", "R20c", "delta evaluation requested, provided targets not on the delta", "U:ki U:kj X:il Y:jl", target="l", ed=True),
+    # several generated deltas: the provided targets hold for every one of them, whichever way the earlier ones were evaluated
+    Scenario("evd-two-preferred", "R20c", "delta evaluation requested, two deltas, the first loses its preferred index, the second "
+             "connects provided targets", "U:mi U:mj X:i U:nk U:nl Y:kl", target="jkl", ed=True),
+    Scenario("evd-two-killable", "R20c", "delta evaluation requested, two deltas, the first loses its killable index, the second "
+             "connects provided targets", "U:mi U:mj X:j U:nk U:nl Y:kl", target="ikl", ed=True),
+    Scenario("evd-two-kept-first", "R20c", "delta evaluation requested, two deltas, the first connects provided targets, the second "
+             "loses its preferred index", "U:mi U:mj Y:ij U:nk U:nl X:k", target="ijl", ed=True),
+    Scenario("evd-three", "R20c", "delta evaluation requested, three deltas: preferred index removed, killable index removed, "
+             "provided targets connected", "U:mi U:mj X:i U:nk U:nl Y:kl U:ab U:ac Z:c", target="bjkl", ed=True),
+    Scenario("evd-two-einstein", "R20c", "delta evaluation requested, two deltas, targets by sum convention",
+             "U:mi U:mj X:i U:nk U:nl Y:kl", ed=True),
+    Scenario("evd-two-terms", "R20c", "delta evaluation requested, two terms with two deltas each, provided targets",
+             ["U:mi U:mj X:i U:nk U:nl Y:kl", "2 U:im U:jm X:i U:kn U:ln Y:lk"], target="jkl", ed=True),
 ]
 
 
@@ -920,7 +933,7 @@ def scenarios(ctx, rule):
         except _OutOfDomain as e:
             raise AnalysisError(f"C20 scenario {scn.sid} is outside the decided domain: {e}")
         n += 1
-    ctx.floor(rule, "model expressions evaluated", n, {"R20a": 32, "R20b": 13, "R20c": 24}[rule])
+    ctx.floor(rule, "model expressions evaluated", n, {"R20a": 32, "R20b": 13, "R20c": 30}[rule])
 
 
 def r20c_request(ctx):
